@@ -17,6 +17,7 @@ type vCipherCall struct {
 	data []byte
 	ok   bool
 	out  []byte
+	id   int
 }
 
 type vCipher struct {
@@ -32,7 +33,7 @@ func vCloneB(x []byte) []byte { return append([]byte{}, x...) }
 func (c vCipher) Decrypt(out []byte, n uint64, ad, ct []byte) ([]byte, error) {
 	ok := vBool()
 	pt := vBytes(c.maxPT)
-	*c.log = append(*c.log, vCipherCall{dec: true, n: n, ad: vCloneB(ad), data: vCloneB(ct), ok: ok, out: vCloneB(pt)})
+	*c.log = append(*c.log, vCipherCall{dec: true, n: n, ad: vCloneB(ad), data: vCloneB(ct), ok: ok, out: vCloneB(pt), id: c.id})
 	if !ok {
 		return nil, vErrDecrypt
 	}
@@ -41,7 +42,7 @@ func (c vCipher) Decrypt(out []byte, n uint64, ad, ct []byte) ([]byte, error) {
 
 func (c vCipher) Encrypt(out []byte, n uint64, ad, pt []byte) []byte {
 	ct := vBytesN(len(pt) + 16)
-	*c.log = append(*c.log, vCipherCall{n: n, ad: vCloneB(ad), data: vCloneB(pt), out: vCloneB(ct)})
+	*c.log = append(*c.log, vCipherCall{n: n, ad: vCloneB(ad), data: vCloneB(pt), out: vCloneB(ct), id: c.id})
 	return append(out, ct...)
 }
 
